@@ -744,7 +744,13 @@ func part1(c *Ctx, im *Impl, cf *CaseFile, tmp string) {
 			if ur.Unit == "" {
 				continue
 			}
-			if st, _, _ := diskStatus(n, ur.Unit); st == 0 || st == 1 {
+			st, _, _ := diskStatus(n, ur.Unit)
+			if st < 0 { // unreadable: being rewritten right now, or released
+				if _, err := os.Stat(filepath.Join(n.UnitDir(ur.Unit), "status")); err == nil {
+					busy = true
+				}
+			}
+			if st == 0 || st == 1 {
 				busy = true
 			}
 		}
@@ -1691,9 +1697,12 @@ func part7(c *Ctx, im *Impl, cf *CaseFile, tmp string) {
 		switch name {
 		case "complete":
 			WaitFor(10*time.Second, func() bool { st, _, _ := diskStatus(ra, unit); return st >= 2 })
-			time.Sleep(300 * time.Millisecond)
+			var b []byte
+			WaitFor(8*time.Second, func() bool { // the output is copied by its own goroutine
+				b, _ = os.ReadFile(filepath.Join(ra.UnitDir(unit), "stdout"))
+				return string(b) == "start\nend\n"
+			})
 			st, _, _ := diskStatus(ra, unit)
-			b, _ := os.ReadFile(filepath.Join(ra.UnitDir(unit), "stdout"))
 			if st != 2 || string(b) != "start\nend\n" {
 				im.Violate(fmt.Sprintf("remote unit %s ended on ra as state %d with stdout %q", unit, st, string(b)), "c13-wrong-final-state", ctx)
 			}
